@@ -38,7 +38,31 @@ func (w *verifRW) Write(p []byte) (int, error) {
 
 var verifErrRender = errors.New("render failed")
 
+// verifWrapErr wraps another error (errors.Is / errors.As see through it).
+type verifWrapErr struct{ err error }
+
+func (e verifWrapErr) Error() string { return "render: " + e.err.Error() }
+func (e verifWrapErr) Unwrap() error { return e.err }
+
+// the errors a failing component may return: its own, the context errors (a sub-operation of
+// the component was cancelled or timed out while the request itself is alive), io errors,
+// bare or wrapped
+var verifRenderErrs = []error{
+	verifErrRender,
+	context.Canceled,
+	verifWrapErr{context.Canceled},
+	context.DeadlineExceeded,
+	verifWrapErr{context.DeadlineExceeded},
+	io.EOF,
+	verifWrapErr{io.ErrClosedPipe},
+	http.ErrAbortHandler,
+}
+
 func verifChunks(chunks []string, fail bool) Component {
+	return verifChunksErr(chunks, fail, verifErrRender)
+}
+
+func verifChunksErr(chunks []string, fail bool, failWith error) Component {
 	return ComponentFunc(func(ctx context.Context, w io.Writer) error {
 		for _, c := range chunks {
 			if _, err := io.WriteString(w, c); err != nil {
@@ -46,7 +70,7 @@ func verifChunks(chunks []string, fail bool) Component {
 			}
 		}
 		if fail {
-			return verifErrRender
+			return failWith
 		}
 		return nil
 	})
@@ -98,7 +122,11 @@ func VerifC11Buffered() {
 	if eh := verifErrorHandler(shape); eh != nil {
 		opts = append(opts, WithErrorHandler(eh))
 	}
-	h := Handler(verifChunks(chunks, fail), opts...)
+	failWith := verifRenderErrs[symChoose(len(verifRenderErrs))]
+	if !fail {
+		symAssume(failWith == verifErrRender)
+	}
+	h := Handler(verifChunksErr(chunks, fail, failWith), opts...)
 	w := verifServe(h)
 	symObserve("body", string(w.body))
 	symObserveInt("status", w.status)
@@ -176,4 +204,46 @@ func VerifC11BigThenNext() {
 	}
 	w2 := verifServe(Handler(verifChunks([]string{"second"}, false)))
 	symAssert(w2.status == 200 && string(w2.body) == "second", "the next request is unaffected (no bytes of the earlier response)")
+}
+
+
+// verifSlowRW is a ResponseWriter whose client reads slowly: Write blocks (a scheduling point)
+// before the bytes are taken, as a network write does.
+type verifSlowRW struct{ verifRW }
+
+func (w *verifSlowRW) Write(p []byte) (int, error) {
+	w.commit(200)
+	symYield()
+	w.body = append(w.body, p...)
+	symYield()
+	return len(p), nil
+}
+
+// VerifC11Concurrent: two requests served at the same time through the shared buffer pool, the
+// clients reading slowly, one of the renders possibly failing: each client gets its own
+// complete document or its own error response, under every interleaving.
+func VerifC11Concurrent() {
+	docA := "A" + symString("a", symParam("N"))
+	docB := "B" + symString("b", symParam("N"))
+	failB := symBool("failB")
+	wa := &verifSlowRW{verifRW{hdr: http.Header{}}}
+	wb := &verifSlowRW{verifRW{hdr: http.Header{}}}
+	done := make(chan struct{}, 2)
+	go func() {
+		Handler(verifChunks([]string{docA}, false), WithStatus(202)).ServeHTTP(wa, &http.Request{})
+		done <- struct{}{}
+	}()
+	go func() {
+		Handler(verifChunks([]string{docB, "tail"}, failB)).ServeHTTP(wb, &http.Request{})
+		done <- struct{}{}
+	}()
+	<-done
+	<-done
+	symCover("both-served")
+	symAssert(wa.status == 202 && string(wa.body) == docA, "request A: its own complete document, whatever request B does meanwhile")
+	if failB {
+		symAssert(wb.status == 500 && string(wb.body) == componentHandlerErrorMessage+"\n", "request B: its own error response")
+	} else {
+		symAssert(wb.status == 200 && string(wb.body) == docB+"tail", "request B: its own complete document")
+	}
 }
